@@ -52,6 +52,30 @@ type hlDecoder struct {
 	pos     int // index of next codeword (0-based)
 	out     []byte
 	trailer []byte
+	// the most recent explicit unlatch (254) that ended a C40 / Text / X12 run
+	unlatchAt, unlatchMode int
+}
+
+// Encodation modes as reported by DecodeCodewordsInfo.
+const (
+	ModeC40  = mC40
+	ModeText = mText
+	ModeX12  = mX12
+)
+
+// DecodeCodewordsInfo is DecodeCodewords and also reports the position and the mode (ModeC40,
+// ModeText, ModeX12) of the last explicit unlatch codeword that ended such a run (-1: none).
+func DecodeCodewordsInfo(data []byte) (text string, unlatchAt, unlatchMode int, err error) {
+	d := &hlDecoder{cw: data, unlatchAt: -1}
+	if err := d.run(); err != nil {
+		return "", -1, 0, err
+	}
+	d.out = append(d.out, d.trailer...)
+	r := make([]rune, len(d.out))
+	for i, b := range d.out {
+		r[i] = rune(b)
+	}
+	return string(r), d.unlatchAt, d.unlatchMode, nil
 }
 
 func (d *hlDecoder) rem() int { return len(d.cw) - d.pos }
@@ -173,6 +197,10 @@ func (d *hlDecoder) c40text(text bool) error {
 			return nil // last codeword of the symbol is ASCII encoded
 		}
 		if c1 == 254 { // explicit unlatch (also legal as the very last codeword)
+			d.unlatchAt, d.unlatchMode = d.pos, mC40
+			if text {
+				d.unlatchMode = mText
+			}
 			d.pos++
 			return nil
 		}
@@ -265,6 +293,7 @@ func (d *hlDecoder) x12() error {
 			return nil // one trailing ASCII codeword
 		}
 		if c1 == 254 {
+			d.unlatchAt, d.unlatchMode = d.pos, mX12
 			d.pos++
 			return nil
 		}
